@@ -1,6 +1,7 @@
 package gose
 
 import (
+	"crypto/sha256"
 	"fmt"
 	"go/token"
 	"go/types"
@@ -20,7 +21,7 @@ var initWhitelist = map[string]bool{
 }
 
 func initAllowed(path string) bool {
-	if strings.HasPrefix(path, ModPath) {
+	if strings.HasPrefix(path, ModPath) || strings.HasPrefix(path, "github.com/llir/") {
 		return true
 	}
 	return initWhitelist[path]
@@ -210,6 +211,85 @@ func init() {
 			cp.insert(e.key, e.value)
 		}
 		return iface{t: ifc.t, v: cp}
+	}
+	// SHA-256 (name mangling in the code generator): the digest state lives beside the interpreter,
+	// concrete bytes only; the standard library computes the sum
+	shaPkg := "(*crypto/internal/fips140/sha256.Digest)."
+	shaBuf := func(fr *frame, recv value) *[]byte {
+		if fr.i.sha == nil {
+			fr.i.sha = map[value]*[]byte{}
+		}
+		b := fr.i.sha[recv]
+		if b == nil {
+			b = new([]byte)
+			fr.i.sha[recv] = b
+		}
+		return b
+	}
+	in[shaPkg+"Reset"] = func(fr *frame, a []value) value { *shaBuf(fr, a[0]) = nil; return nil }
+	in[shaPkg+"Write"] = func(fr *frame, a []value) value {
+		b := shaBuf(fr, a[0])
+		data := a[1].([]value)
+		for _, v := range data {
+			c, ok := v.(uint8)
+			if !ok {
+				panic(unsupported("symbolic byte hashed with SHA-256"))
+			}
+			*b = append(*b, c)
+		}
+		return tuple{len(data), iface{}}
+	}
+	in[shaPkg+"Sum"] = func(fr *frame, a []value) value {
+		b := shaBuf(fr, a[0])
+		sum := sha256.Sum256(*b)
+		var out []value
+		if a[1] != nil {
+			out = append(out, a[1].([]value)...)
+		}
+		for _, c := range sum {
+			out = append(out, c)
+		}
+		return out
+	}
+	// sync.Map on the single interpreted goroutine: an association list per map value (the real
+	// implementation hashes through unsafe type descriptors)
+	anyT := types.NewInterfaceType(nil, nil)
+	syncFind := func(fr *frame, m value, k value) (*[]syncKV, int) {
+		if fr.i.syncMaps == nil {
+			fr.i.syncMaps = map[*value][]syncKV{}
+		}
+		p := m.(*value)
+		l := fr.i.syncMaps[p]
+		for idx := range l {
+			if equals(anyT, l[idx].k, k) {
+				return &l, idx
+			}
+		}
+		return &l, -1
+	}
+	in["(*sync.Map).Load"] = func(fr *frame, a []value) value {
+		l, idx := syncFind(fr, a[0], a[1])
+		if idx < 0 {
+			return tuple{iface{}, false}
+		}
+		return tuple{(*l)[idx].v, true}
+	}
+	in["(*sync.Map).Store"] = func(fr *frame, a []value) value {
+		l, idx := syncFind(fr, a[0], a[1])
+		if idx >= 0 {
+			(*l)[idx].v = a[2]
+		} else {
+			fr.i.syncMaps[a[0].(*value)] = append(*l, syncKV{a[1], a[2]})
+		}
+		return nil
+	}
+	in["(*sync.Map).LoadOrStore"] = func(fr *frame, a []value) value {
+		l, idx := syncFind(fr, a[0], a[1])
+		if idx >= 0 {
+			return tuple{(*l)[idx].v, true}
+		}
+		fr.i.syncMaps[a[0].(*value)] = append(*l, syncKV{a[1], a[2]})
+		return tuple{a[2], false}
 	}
 	// sync/atomic on the single interpreted goroutine: plain loads, stores and updates of the cell
 	for _, k := range []struct {
